@@ -315,6 +315,12 @@ def ufi_sym(eng, name, *args):
     return VInt(f(*ints))
 
 
+@spec("member", None, "ghost: x in <untracked container the function never mutates> (contract option immutable_sets)")
+def member_sym(eng, container, x):
+    from .models import member_f, to_val
+    return VBool(member_f(to_val(eng, container), to_val(eng, x)))
+
+
 @spec("holds_lock", None, "some lock handle of this actor is open on exactly this path (owns, not closed)")
 def holds_lock_sym(eng, path):
     from .models import to_val
